@@ -171,6 +171,17 @@ class Emu:
                 rest = a[1:4] if len(ops) == 3 else self.get(d)[1:4]
                 self.put(d, [lane0] + rest, vex)
             return
+        if base in ("roundss", "roundps") and ops[-1].kind == "imm":
+            k = self.imm(ops[-1].text)
+            rnd = {1: sp.floor, 2: sp.ceiling}.get((k or 0) & 7) if k is not None else None
+            src = self.get(ops[-2])
+            if base == "roundps":
+                self.put(d, [None if (rnd is None or _as_float(q) is None) else rnd(_as_float(q)) for q in src], vex)
+            else:
+                keep = self.get(ops[1])[1:4] if len(ops) == 4 else self.get(d)[1:4]
+                q = _as_float(src[0])
+                self.put(d, [None if (rnd is None or q is None) else rnd(q)] + keep, vex)
+            return
         if base in ("sqrtps",) and len(ops) == 2:
             a = [_as_float(q) for q in self.get(ops[1])]
             self.put(d, [None if p is None else sp.sqrt(p) for p in a], vex)
